@@ -307,6 +307,11 @@ def shunting_case_tables(ctx):
     names = [v["name"] for v in node["variants"]]
     nondepot = {i for i, n in enumerate(names) if n in ("Service", "Maintenance")}
     FM, FD = field(SH, "minimal"), field(SH, "dead_head_trip")
+    vi_ = {n: i for i, n in enumerate(names)}
+    # the node kinds may be tested with is_depot() & co instead of a match
+    kind_preds = {ND("is_start_depot"): {vi_.get("StartDepot")}, ND("is_end_depot"): {vi_.get("EndDepot")},
+                  ND("is_depot"): {vi_.get("StartDepot"), vi_.get("EndDepot")}, ND("is_service"): {vi_.get("Service")},
+                  ND("is_maintenance"): {vi_.get("Maintenance")}}
     for key, want, text in (
             (N("shunting_duration_between_activities_if_no_dead_head_trip"), lambda a, b: (1 if a in nondepot and b in nondepot else 0, 0),
              "at the same location the minimal shunting time applies for every pair of non-depot activities (4 of 16 kind pairs), nothing otherwise"),
@@ -316,14 +321,34 @@ def shunting_case_tables(ctx):
         if fd is None:
             continue
         bad, und = [], []
+        table = {}
         for a in range(len(names)):
             for b in range(len(names)):
-                recs = optabs.enum_cases(fd.body, {2: a, 3: b})
+                it = optabs.OptInterp(fd.body, {})
+                it.forced = {2: a, 3: b}
+                it.enum_preds = kind_preds
+                it.field_labels = {FM: "minimal", FD: "dead-head"}
+                it.run()
+                recs = it.records
                 got = {(r["reads"].get(FM, 0), r["reads"].get(FD, 0)) for r in recs}
+                table[(a, b)] = (got, [set(r["ret_src"]) for r in recs])
                 if not recs:
                     und.append((names[a], names[b]))
                 elif got != {want(a, b)}:
                     bad.append("(%s, %s): reads (minimal, dead-head shunting) %s times, expected %s" % (names[a], names[b], sorted(got), want(a, b)))
+        if bad and len({frozenset(g) for g, _ in table.values()}) == 1:
+            # the configuration value is read once up front, whatever the kinds are: decide on where the RESULT takes its value from
+            bad = []
+            for (a, b), (got, srcs) in table.items():
+                w = want(a, b)
+                expect = set()
+                if w[0]:
+                    expect.add("minimal")
+                if w[1]:
+                    expect.add("dead-head")
+                if any(s_ != expect for s_ in srcs):
+                    bad.append("(%s, %s): the result takes its value from %s, expected %s" % (
+                        names[a], names[b], sorted(set().union(*srcs)) or "nothing", sorted(expect) or "nothing"))
         if bad:
             ctx.bad(o, "; ".join(bad[:3]))
         elif und:
